@@ -95,13 +95,18 @@ func runC15(c *core.Ctx) {
 	c.Exhaustive(fmt.Sprintf("all %d boundary (published, expires) combinations", len(pubs)*len(offs)))
 
 	// Lease / Lease2 time conversions and the 32-bit constructor's range check
-	secs := []int64{-1, -1 << 31, 0, 1, 1<<31 - 1, 1 << 31, 1<<32 - 1, 1 << 32, 1<<32 + 1, 1 << 33, 1 << 40, 1 << 62 / 1000}
+	secs := []int64{-1, -1 << 31, 0, 1, 1<<31 - 1, 1 << 31, 1<<32 - 1, 1 << 32, 1<<32 + 1, 1 << 33, 1 << 40, 1 << 62 / 1000,
+		1 << 53, 1 << 54, 1<<54 + 12345, 1 << 60, 1 << 61, 1<<61 + 12345, 1 << 62, 1<<62 + 1<<32, 1<<63 - 1, -1 << 62, -1 << 63,
+		(1<<63-1)/1000 + 1, (1<<63-1)/1000 + 1<<32 + 7, 18446744073709551 /* 2^64/1000 */, 18446744073709552, 18446744073709551 + 1<<31}
 	c.Job("lease2-ctor", len(secs)+c.N(4000, 80000), func(i int, r *core.Rand) {
 		var s int64
 		if i < len(secs) {
 			s = secs[i]
 		} else {
-			s = int64(r.Uint64()>>uint(20+r.Pick(44))) - int64(r.Pick(3))
+			s = int64(r.Uint64()>>uint(1+r.Pick(63))) - int64(r.Pick(3))
+			if r.Chance(1, 8) {
+				s = -s
+			}
 		}
 		c.Eval(1)
 		in := []byte(fmt.Sprint(s))
@@ -224,6 +229,10 @@ func runC15(c *core.Ctx) {
 			case 2:
 				if j > 0 {
 					l.EndMs = m.Leases[r.Pick(j)].EndMs // ties
+				}
+			case 3:
+				if j > 0 { // another lease within the same second as an earlier one
+					l.EndMs = m.Leases[r.Pick(j)].EndMs/1000*1000 + uint64(r.Pick(1000))
 				}
 			default:
 				l.EndMs = r.Uint64() >> 1
